@@ -26,7 +26,19 @@ CLAIMED = {
  "C14": C("BuildCertBody is proved to reuse a stored key (regardless of the configured algorithm), else use the request's public key without inventing a private key, else generate; GenerateArtifacts is proved to pass the stored key/request in and to return them in the new artifact.",
            "PEM/PKCS#8 write and read-back are not yet under contract in this revision; induction over runs is a paper step." + COMMON, "6 (C14)"),
  "C19": C("BuildCertBody, Sign and SignCertBody are proved with strongest postconditions per field: each TBS manipulation sets exactly its field before signing, the outer ones replace exactly the outer algorithm/value after signing and leave the signed part untouched.",
-           "Manipulations.Apply (parsing of the block) is not yet under contract in this revision." + COMMON, "6 (C19)"),
+           "OID text to arcs and raw decoding are proved in OidFromString/readRawString." + COMMON, "6 (C19)"),
+ "C03": C("ParseRDNSequence is proved to turn the comma-separated pieces into single-valued RDNs in reversed order with the type from the documented short-name table (table lemma on the executed initializer) or the dotted OID (OidFromString proved arc by arc) and the value text after the first '=' unchanged; Validate/Merge/validateAndMerge are proved to leave the subject untouched (frame); serial and unique ids are proved to pass through initCertificate, BuildCertBody and Sign.",
+           "The comma splitting over runes (loop 1 of ParseRDNSequence) is abstracted and covered by a bounded stand-in (labelled bounded); PrintableString/UTF8String choice is encoding/asn1." + COMMON, "6 (C03)"),
+ "C06": C("Every Builder of the eleven extension kinds is proved (commonExtensionHandler inlined, its reflection evaluated for the concrete type): neither raw nor content gives OverrideNeededBuilder, both is an error, raw gives a ConstantBuilder with the kind's OID, the configured critical flag and exactly the decoded raw bytes (readRawString proved for every length); BuildCertBody and Sign are proved to keep builder order; every constructor is proved to carry its critical argument and OID.",
+           "parseExtensions (reflection over AnyExtension with a non-constant bound) is assumed and covered by a bounded stand-in in thorough; base64 decoding is assumed." + COMMON, "6 (C06)"),
+ "C07": C("Value contracts over a TLV algebra: key usage as minimal named bit list for all 256 flag bytes (bit vectors), the four GeneralName encodings, subjectAltName/authorityInfoAccess as SEQUENCE of the element encodings (loop invariants), key identifiers as SHA-1 of the subject/issuer public key bits, basic constraints, policies, extended key usage as DER of the struct the builders are proved to fill from the configuration.",
+           "DER of primitives and reflection-driven struct encoding is encoding/asn1 (assumed); pathLen 0 cannot be expressed (known finding)." + COMMON, "6 (C07)"),
+ "C10": C("Write frame proved: exportPemFile writes at most the artifact file of its alias with exactly hash line, certificate, key and request blocks; PutBuildArtifact and BulkUpdate write only artifact files of listed aliases and return the first error; the sign closure is proved to reach BulkUpdate only after successful Open and planning and, when something would be replaced, only if the trimmed lower-cased answer is y; needsUpdate/HashSum lemmas as in C11/C13.",
+           "Partial: the two-run quiescence argument composes these per-call facts on paper; OS mtime semantics and the clock are assumptions; db.Database interface contract." + COMMON, "6 (C10)"),
+ "C16": C("Admission.marshal, Admissions.marshal, ProfessionInfo.marshal (partialMarshallStruct inlined, its reflection and struct tags evaluated) and makeExplicit are proved to compose the CommonPKI AdmissionSyntax TLV by TLV with the tag strings of the specification; the v1 convert functions are proved to carry every configured field and GeneralName kind.",
+           "Field encoders inside encoding/asn1 are assumed." + COMMON, "6 (C16)"),
+ "C20": C("Safety sweep: every index, slice, nil dereference, type assertion, lossy conversion and explicit panic in all functions under contract is an obligation discharged for all inputs satisfying the stated preconditions; preconditions are obligations at in-repo call sites.",
+           "Parsers in dependencies (yaml, jsonschema, asn1, pem) are outside; functions marked unverified are listed in evidence; import of artifact files is not yet under contract in this revision." + COMMON, "6 (C20)"),
 }
 NOT_APPLICABLE = {
  "C12": "whole-history convergence needs an inductive invariant over directory states under a user-operation alphabet; no per-call contract states it (DESIGN.md section 6, C12)",
